@@ -275,7 +275,13 @@ def r4(R, repo):
   raw_use = [x for x in ast.walk(mf.node) if isinstance(x, (ast.Call, ast.BinOp, ast.Compare)) and
              ((isinstance(x, ast.Call) and astu.call_tail(x) in ('isdisjoint', 'intersection', 'issubset', 'issuperset', 'union') and any(evid.raw3(mf, a_, ps[1], ('tree_leaves', 'tree_flatten')) == evid.RAW for a_ in x.args)) or
               (isinstance(x, ast.BinOp) and isinstance(x.op, (ast.BitAnd, ast.BitOr)) and any(evid.raw3(mf, a_, ps[1], ('tree_leaves', 'tree_flatten')) == evid.RAW for a_ in (x.left, x.right))))]
-  if raw_use:
+  # the *new* assignment used whole in a membership test: a tuple of mesh axes is never "in" a set of single axis names
+  raw_new = [x for x in ast.walk(mf.node) if isinstance(x, ast.Compare) and len(x.ops) == 1 and isinstance(x.ops[0], (ast.In, ast.NotIn)) and evid.raw3(mf, x.left, ps[0], ('tree_leaves', 'tree_flatten')) == evid.RAW]
+  if raw_new and not raw_use:
+    R.fail(key_of(mf, 'both sides flattened to single mesh axis names'), (mf, raw_new[0]), '`%s` tests the new assignment as a whole: a rule that maps a dimension to a *tuple* of mesh axes is never found among the single axis names already used, so a mesh axis is assigned to two dimensions (e.g. P(\'data\', (\'data\', \'model\')))' % astu.short(raw_new[0]))
+    dn = de = None
+    raw_use = raw_new
+  elif raw_use:
     R.fail(key_of(mf, 'both sides flattened to single mesh axis names'), (mf, raw_use[0]), '`%s` compares the new mesh axes with the *unflattened* existing assignments: a rule may have assigned a tuple of mesh axes to one dimension, '
            'and a tuple never equals a single axis name, so an axis used inside such a tuple is not seen as taken and is assigned to a second dimension' % astu.short(raw_use[0]))
     dn = de = None
